@@ -307,7 +307,9 @@ def handle(case):
                 CHECKS.append('auto-IVC value of %s is %s, set %s' % (inp['src'], real_src.tolist(), srcval.tolist()))
         else:
             srcval = np.asarray(p.get_val(inp['src_abs']))
-            if not np.array_equal(srcval, LAST[inp['src_abs']]) and len(CHECKS) < 3:
+            same = (np.allclose(srcval, LAST[inp['src_abs']], rtol=1e-13, atol=1e-13) if inp.get('src_scaled')
+                    else np.array_equal(srcval, LAST[inp['src_abs']]))   # scaling round trips are not exact
+            if not same and len(CHECKS) < 3:
                 CHECKS.append('source %s changed outside its compute' % inp['src_abs'])
         v1 = np.asarray(p.model._inputs[a])
         v2 = np.asarray(p.get_val(a, from_src=False))
